@@ -127,8 +127,8 @@ func (propC02) Gen(r *Rng, run uint64, tier string) *Plan {
 	p := &Plan{Harness: "engine", Tags: map[string]string{}, Config: "faultfree"}
 	spec := WorldSpec{NMin: 0, NMax: 9, RecMin: 0, RecMax: 8, Lo: BaseNs, Hi: BaseNs + 60*sec, Grid: sec, TieProb: 0.2,
 		Msg: "token", States: true, Labels: "vocab", NoHuge: true, OffSecond: true}
-	if tier == "thorough" && r.Bool(0.2) {
-		spec.NMax = 16
+	if r.Bool(0.08) {
+		spec.NMin, spec.NMax, spec.RecMax = 10, 24, 3
 	}
 	if r.Bool(0.5) {
 		spec.NMin = 3
